@@ -39,12 +39,19 @@ type Case struct {
 	Handler string `json:"handler,omitempty"`
 	Point   string `json:"point,omitempty"`
 	EC      int    `json:"ec,omitempty"`
+	Panic   bool   `json:"panic,omitempty"` // propagate: the read does not return an error, it panics
 }
 
 type Obs struct {
 	Outs []scanstack.Out `json:"outs,omitempty"`
-	Err  bool            `json:"err,omitempty"`
-	Name string          `json:"errclass,omitempty"`
+	// scan: script indices of the Panic events that killed the process / that the listener survived
+	Died     []int `json:"died,omitempty"`
+	Survived []int `json:"survived,omitempty"`
+	// propagate: the handler did not report the range as handled (it returned an error, or - Panicked -
+	// the panic of the node read went through it)
+	Err      bool   `json:"err,omitempty"`
+	Panicked bool   `json:"panicked,omitempty"`
+	Name     string `json:"errclass,omitempty"`
 }
 
 var wiring map[string]scanstack.Wiring
@@ -55,10 +62,14 @@ var wiring map[string]scanstack.Wiring
 type fault struct {
 	point string
 	ec    int
+	panic bool
 }
 
 func (f fault) at(point string) error {
 	if f.point == point {
+		if f.panic {
+			panic(scanstack.ScriptedPanic{})
+		}
 		return scanstack.ErrClass(f.ec)
 	}
 	return nil
@@ -161,7 +172,34 @@ var propagatePoints = []struct {
 	{"btc", []string{"GetBlockHash", "GetBlockVerboseTx"}},
 }
 
-func propagate(name string, f fault) bool {
+// propagatePanicPoints: the reads through which a handler learns what the range holds; all of them
+// are made outside the per-event recover() blocks of the handlers, so a panic inside the node client
+// there goes through HandleEvents (and kills the listener).  A handler that swallows it and reports
+// the range as handled lets the cursor pass a range it never read.  (The per-retry-event reads of
+// the Substrate retry handler - GetBlockHash / GetBlockEvents - sit inside its per-event recover():
+// a panic there is dropped like a malformed retry event, by design of that isolation; not driven.)
+var propagatePanicPoints = map[string][]string{
+	"evm-deposit": {"FetchEventLogs"}, "evm-retryv1": {"FetchEventLogs"}, "evm-retryv2": {"FetchEventLogs"},
+	"evm-keygen": {"FetchEventLogs"}, "evm-frostkeygen": {"FetchEventLogs"}, "evm-refresh": {"FetchEventLogs"},
+	"sub-fungible": {"FetchEvents"}, "sub-sysupdate": {"FetchEvents"},
+	"sub-retry": {"FetchEvents", "GetFinalizedHead", "GetBlock"},
+	"btc":       {"GetBlockHash", "GetBlockVerboseTx"},
+}
+
+// propagate: did the handler report a failure (error returned), and did a panic go through it?
+func propagate(name string, f fault) (failed bool, panicked bool) {
+	defer func() {
+		if r := recover(); r != nil {
+			if !f.panic {
+				panic(r)
+			}
+			failed, panicked = true, true
+		}
+	}()
+	return propagate1(name, f), false
+}
+
+func propagate1(name string, f fault) bool {
 	logC := zerolog.Nop().With()
 	ch := make(chan []*message.Message, 4)
 	s, e := big.NewInt(10), big.NewInt(14)
@@ -197,8 +235,9 @@ func propagate(name string, f fault) bool {
 
 func run(c Case) Obs {
 	if c.Type == "propagate" {
-		o := Obs{Err: propagate(c.Handler, fault{c.Point, c.EC})}
-		if c.Point != "" {
+		var o Obs
+		o.Err, o.Panicked = propagate(c.Handler, fault{c.Point, c.EC, c.Panic})
+		if c.Point != "" && !c.Panic {
 			o.Name = scanstack.ErrClassName(c.EC)
 		}
 		return o
@@ -208,7 +247,7 @@ func run(c Case) Obs {
 		panic("no wiring for kind " + c.Cfg.Kind)
 	}
 	r := scanstack.Run(c.Cfg, w, c.Evs, scanstack.Options{})
-	return Obs{Outs: r.Outs}
+	return Obs{Outs: r.Outs, Died: r.Died, Survived: r.Survived}
 }
 
 // ---- generation --------------------------------------------------------------------------------------
@@ -231,7 +270,7 @@ func genScript(r *vgen.Rng, cfg scanstack.Cfg, rounds, crashes int) []scanstack.
 	var evs []scanstack.Ev
 	for i := 0; i < rounds; i++ {
 		if r.Chance(1, 10) {
-			evs = append(evs, scanstack.Ev{T: "rpcfail", EC: r.Intn(scanstack.NumErrClasses())})
+			evs = append(evs, scanstack.Ev{T: "rpcfail", EC: r.Intn(scanstack.NumErrClasses()), Panic: r.Chance(1, 5)})
 		}
 		switch r.Intn(5) {
 		case 0:
@@ -249,6 +288,7 @@ func genScript(r *vgen.Rng, cfg scanstack.Cfg, rounds, crashes int) []scanstack.
 			ev := scanstack.Ev{T: "handler", Ok: ok}
 			if !ok { // where and how handler 0 (the repository's deposit handler) fails
 				ev.P, ev.EC = r.Intn(2), r.Intn(scanstack.NumErrClasses())
+				ev.Panic = r.Chance(1, 3) // not by returning an error: by a Go panic inside HandleEvents
 			}
 			evs = append(evs, ev)
 			failed = !ok
@@ -257,11 +297,13 @@ func genScript(r *vgen.Rng, cfg scanstack.Cfg, rounds, crashes int) []scanstack.
 			st := scanstack.Ev{T: "store", Ok: !r.Chance(1, 6)}
 			if !st.Ok {
 				st.EC = r.Intn(scanstack.NumErrClasses())
+				st.Panic = r.Chance(1, 5)
 			}
 			evs = append(evs, st)
 		}
 		if r.Chance(1, 12) { // an event that does not apply where it arrives
-			evs = append(evs, vgen.Pick(r, []scanstack.Ev{{T: "store", Ok: true}, {T: "handler", Ok: true}, {T: "handler"}, {T: "rpcfail"}}))
+			evs = append(evs, vgen.Pick(r, []scanstack.Ev{{T: "store", Ok: true}, {T: "handler", Ok: true}, {T: "handler"}, {T: "rpcfail"},
+				{T: "handler", Panic: true}, {T: "store", Panic: true}}))
 		}
 	}
 	for i := 0; i < crashes && len(evs) > 0; i++ {
@@ -307,6 +349,60 @@ func sweep() []Case {
 						out = append(out, Case{Type: "scan", Cfg: cfg, Evs: evs})
 					}
 				}
+			}
+		}
+	}
+	// the same places failing by PANIC: a handler (the repository's deposit handler inside each of its
+	// node reads, and every later handler), the head read, the block-store write - first thing in a
+	// lifetime and after a persisted range, with 1..3 handlers; afterwards the script goes on for three
+	// more rounds so that a cursor that passed the range shows
+	for _, kind := range kinds {
+		for nh := 1; nh <= 3; nh++ {
+			for k := 0; k < nh; k++ {
+				points := 1
+				if kind == "btc" && k == 0 {
+					points = 2
+				}
+				for p := 0; p < points; p++ {
+					for _, warm := range []bool{false, true} {
+						cfg := scanstack.Cfg{Kind: kind, Ival: 3, Conf: 1, NH: nh, CStart: 30}
+						var evs []scanstack.Ev
+						round := func() {
+							evs = append(evs, scanstack.Ev{T: "head", H: 60})
+							evs = okHandlers(evs, nh)
+							evs = append(evs, scanstack.Ev{T: "store", Ok: true})
+						}
+						if warm {
+							round()
+						}
+						evs = append(evs, scanstack.Ev{T: "head", H: 60})
+						evs = okHandlers(evs, k)
+						evs = append(evs, scanstack.Ev{T: "handler", P: p, Panic: true})
+						round()
+						round()
+						round()
+						out = append(out, Case{Type: "scan", Cfg: cfg, Evs: evs})
+					}
+				}
+			}
+			for _, what := range []string{"rpcfail", "store"} {
+				cfg := scanstack.Cfg{Kind: kind, Ival: 3, Conf: 1, NH: nh, CStart: 30}
+				var evs []scanstack.Ev
+				round := func(store scanstack.Ev) {
+					evs = append(evs, scanstack.Ev{T: "head", H: 60})
+					evs = okHandlers(evs, nh)
+					evs = append(evs, store)
+				}
+				round(scanstack.Ev{T: "store", Ok: true})
+				if what == "rpcfail" {
+					evs = append(evs, scanstack.Ev{T: "rpcfail", Panic: true})
+					round(scanstack.Ev{T: "store", Ok: true})
+				} else {
+					round(scanstack.Ev{T: "store", Panic: true})
+				}
+				round(scanstack.Ev{T: "store", Ok: true})
+				round(scanstack.Ev{T: "store", Ok: true})
+				out = append(out, Case{Type: "scan", Cfg: cfg, Evs: evs})
 			}
 		}
 	}
@@ -400,6 +496,25 @@ func optZ(p *int64) string {
 	return vgen.Some(vgen.Z(*p))
 }
 
+// coqEvs: the script as the model sees it.  A Panic event that killed the process is the model's
+// Crash (the process dies here); one the listener survived - or that never applied - is the plain
+// failure of that call (the handler / the node / the store fails).
+func coqEvs(evs []scanstack.Ev, died []int) string {
+	dead := map[int]bool{}
+	for _, i := range died {
+		dead[i] = true
+	}
+	items := make([]string, len(evs))
+	for i, e := range evs {
+		if e.Panic && dead[i] {
+			items[i] = "Crash"
+		} else {
+			items[i] = coqEv(e)
+		}
+	}
+	return vgen.List(items)
+}
+
 func coqEv(e scanstack.Ev) string {
 	switch e.T {
 	case "rpcfail":
@@ -435,7 +550,7 @@ func coq(c Case, o Obs) string {
 	g := c.Cfg
 	return "Scan " + coqKind(g.Kind) + " " + vgen.Z(g.Ival) + " " + vgen.Z(g.Conf) + " " + vgen.Nat(g.NH) + " " + vgen.Z(g.CStart) +
 		" " + vgen.Bool(g.Latest) + " " + vgen.Bool(g.Fresh) + " " + optZ(g.Stored) + "\n    " +
-		vgen.ListOf(c.Evs, coqEv) + "\n    " + vgen.ListOf(o.Outs, CoqOut)
+		coqEvs(c.Evs, o.Died) + "\n    " + vgen.ListOf(o.Outs, CoqOut)
 }
 
 func main() {
@@ -452,7 +567,15 @@ func main() {
 				if c.Point == "" {
 					return "propagate-" + c.Handler
 				}
+				if c.Panic {
+					return "propagate-" + c.Handler + "@" + c.Point + "!panic"
+				}
 				return "propagate-" + c.Handler + "@" + c.Point
+			}
+			for _, e := range c.Evs {
+				if e.Panic {
+					return "scan-" + c.Cfg.Kind + "-panic"
+				}
 			}
 			return "scan-" + c.Cfg.Kind
 		},
@@ -467,6 +590,6 @@ func main() {
 			}
 			return false
 		},
-		Rule: "environment scripts (RPC failures, heads, per-handler results, store results, 0..4 crash points, inapplicable events) for the real EVM/Substrate/BTC listener stacks wired per the extracted app.go record, intervals 1..7, confirmations 0..12, 1..3 handlers, configured starts aligned/unaligned/large, stored cursor absent/behind/ahead, latest/fresh flags; a failing handler-0 event fails one of the real deposit handler's node reads (BTC GetBlockHash / GetBlockVerboseTx, EVM eth_getLogs under the real events.Listener, Substrate FetchEvents) with an error class drawn from the catalogue; a sweep of short scans in which the deposit handler at each node read, a later Bitcoin handler, the Bitcoin head read or block-store write fails once with each error class; plus every repository event handler (EVM deposit/retryV1/retryV2/keygen/frost-keygen/refresh over the real events.Listener, Substrate fungible/retry/system-update, BTC fungible) x every node read it depends on x every error class of the catalogue (plain, wrapped, *btcjson.RPCError codes, io.EOF, context, ethereum.NotFound, JSON-RPC error objects, HTTP/transport errors, texts); distinct = distinct input JSON; non-trivial = a scan in which at least one range was fully handled and StoreBlock was reached, or a failing read",
+		Rule: "environment scripts (RPC failures, heads, per-handler results, store results, 0..4 crash points, inapplicable events) for the real EVM/Substrate/BTC listener stacks wired per the extracted app.go record, intervals 1..7, confirmations 0..12, 1..3 handlers, configured starts aligned/unaligned/large, stored cursor absent/behind/ahead, latest/fresh flags; a failing handler-0 event fails one of the real deposit handler's node reads (BTC GetBlockHash / GetBlockVerboseTx, EVM eth_getLogs under the real events.Listener, Substrate FetchEvents) with an error class drawn from the catalogue; a sweep of short scans in which the deposit handler at each node read, a later Bitcoin handler, the Bitcoin head read or block-store write fails once with each error class; every failing place also failing by a Go panic instead of an error (generated scripts and a sweep: deposit handler inside each node read, later handlers, head read, store write; listener death or survival observed); plus every repository event handler (EVM deposit/retryV1/retryV2/keygen/frost-keygen/refresh over the real events.Listener, Substrate fungible/retry/system-update, BTC fungible) x every node read it depends on x every error class of the catalogue and, for the range-level reads, a panic (plain, wrapped, *btcjson.RPCError codes, io.EOF, context, ethereum.NotFound, JSON-RPC error objects, HTTP/transport errors, texts); distinct = distinct input JSON; non-trivial = a scan in which at least one range was fully handled and StoreBlock was reached, or a failing read",
 	})
 }
